@@ -181,8 +181,17 @@ def compileSelect (s : SqlState) : Nat → Rel → Nat → Except Err (Query × 
   | 0, _, _ => .error .fuel
   | fuel+1, sel, ctr =>
     match sel with
-    | .select _ sort _ dedup sliceStart sliceStop skipTo _ target =>
+    | .select oid sort _ dedup sliceStart sliceStop skipTo _ target =>
       let limit : Option Nat := sliceStop.map (· - sliceStart)
+      match s.payload oid with
+      | some own =>
+        -- a payload attached to the Select itself already represents its rows
+        match target.columns.mapM (fun t => (SqlPayload.lookup own.avail t).map (fun e => (t, e))) with
+        | none => .error .key
+        | some items =>
+          let items := items.foldl (fun acc x => if (acc.find? (·.1 == x.1)).isSome then acc else acc ++ [x]) []
+          .ok (.select items own.frm own.wh false [] 0 none, ctr)
+      | none =>
       match skipTo with
       | .binary .chain l r _ =>
         match l, r with
